@@ -4,7 +4,7 @@
    of a sub-struct pair is the pointer-ness of their types. *)
 From Coq Require Import String Ascii List Bool Arith Lia.
 From Shoot Require Import Base.Str Model.Transfer Model.MapVal Model.Mapper
-     Proofs.MapperProofs Proofs.MapperReach.
+     Proofs.MapperProofs Proofs.MapperPlanProofs Proofs.MapperReach.
 Import ListNotations.
 Local Open Scope string_scope.
 Local Open Scope list_scope.
@@ -25,9 +25,9 @@ Section Inv2.
   Record Inv2 (s : st) : Prop := {
     i2_inv : INV s;
     (* readSrcMap has an entry for every source field with a Target, and the pair itself *)
+    i2_nds : NoDup (map f_name (s_src s));
     i2_rmap : forall i j, i < length (s_src s) -> f_target (src_at s i) = Some j ->
-                m_get (s_rmap s) (f_name (src_at s i)) <> None
-                /\ In (f_name (src_at s i), f_name (dst_at s j)) (s_rmap s);
+                m_get (s_rmap s) (f_name (src_at s i)) = Some (f_name (dst_at s j));
     (* writeSrcMap maps a written source field to the destination field that targets it *)
     i2_wmap : forall j i, j < length (s_dst s) -> f_target (dst_at s j) = Some i ->
                 m_get (s_wmap s) (f_name (src_at s i)) = Some (f_name (dst_at s j));
@@ -111,15 +111,21 @@ Section Inv2.
     - destruct (to_claim_ok e tm ic fns W0s W0d s i0 j0 g h I) as (X & _); auto.
       + split; auto.
       + intros _. lia.
-    - intros i j Hi T. rewrite LS in Hi. rewrite NS, ND.
+    - assert (MS : map f_name (s_src (to_claim i0 j0 g h s)) = map f_name (s_src s)).
+      { apply (map_nth_ext f_name _ _ fdummy); auto. }
+      rewrite MS. apply (i2_nds _ I2).
+    - intros i j Hi T. rewrite LS in Hi. rewrite NS. rewrite dst_at_to_claim by auto.
       assert (RM : s_rmap (to_claim i0 j0 g h s) = m_set (s_rmap s) (f_name (src_at s i0)) (f_name (dst_at s j0))) by reflexivity.
       rewrite RM.
       rewrite src_at_to_claim in T by auto. rewrite m_get_set.
       destruct (Nat.eqb_spec i i0) as [->|Ne].
-      + rewrite Th in T. simpl in T. inversion T; subst j. rewrite String.eqb_refl. split; [discriminate|]. left. reflexivity.
-      + destruct (i2_rmap _ I2 i j Hi T) as (A & B). split.
-        * destruct (String.eqb (f_name (src_at s i0)) (f_name (src_at s i))); [discriminate|exact A].
-        * right. exact B.
+      + rewrite Th in T. simpl in T. inversion T; subst j. rewrite String.eqb_refl. rewrite Nat.eqb_refl.
+        destruct (Kg (dst_at s j0)) as (X & _). rewrite X. reflexivity.
+      + pose proof (i2_rmap _ I2 i j Hi T) as A.
+        assert (Nj : j <> j0) by (eapply NotJ0; eauto).
+        destruct (Nat.eqb_spec j j0); [congruence|].
+        destruct (String.eqb_spec (f_name (src_at s i0)) (f_name (src_at s i))) as [E|]; [|exact A].
+        exfalso. apply Ne. symmetry. apply (NoDup_map_nth f_name (s_src s) fdummy i0 i (i2_nds _ I2)); auto.
     - intros j i Hj T. rewrite LD in Hj. rewrite TD in T. rewrite NS, ND.
       assert (WM : s_wmap (to_claim i0 j0 g h s) = s_wmap s) by reflexivity. rewrite WM.
       apply (i2_wmap _ I2 j i Hj T).
@@ -184,6 +190,9 @@ Section Inv2.
     - destruct (from_claim_ok e tm ic fns W0s W0d s i0 j0 g h I) as (X & _); auto.
       + split; auto.
       + intros _. lia.
+    - assert (MS : map f_name (s_src (from_claim i0 j0 g h s)) = map f_name (s_src s)).
+      { apply (map_nth_ext f_name _ _ fdummy); auto. }
+      rewrite MS. apply (i2_nds _ I2).
     - intros i j Hi T. rewrite LS in Hi. rewrite TS in T. rewrite NS, ND.
       assert (RM : s_rmap (from_claim i0 j0 g h s) = s_rmap s) by reflexivity. rewrite RM.
       apply (i2_rmap _ I2 i j Hi T).
@@ -235,10 +244,10 @@ Section Inv2.
 
   (* before the passes: no Target anywhere *)
   Lemma inv2_init s :
-    INV s -> (forall i, i < length (s_src s) -> f_target (src_at s i) = None) ->
+    INV s -> NoDup (map f_name (s_src s)) -> (forall i, i < length (s_src s) -> f_target (src_at s i) = None) ->
     (forall j, j < length (s_dst s) -> f_target (dst_at s j) = None) -> Inv2 s.
   Proof.
-    intros I HS HD. constructor; auto.
+    intros I NDS HS HD. constructor; auto.
     - intros i j Hi T. rewrite HS in T; auto. discriminate.
     - intros j i Hj T. rewrite HD in T; auto. discriminate.
     - intros i j Hi T. rewrite HS in T; auto. discriminate.
@@ -247,3 +256,13 @@ Section Inv2.
     - intros j i Hj T. rewrite HD in T; auto. discriminate.
   Qed.
 End Inv2.
+
+(* the live entries of a map contain what a lookup finds *)
+Lemma m_get_live m k v : m_get m k = Some v -> In (k, v) (m_live m).
+Proof.
+  unfold m_get. induction m as [|[a b] m IH]; simpl; [discriminate|].
+  destruct (String.eqb_spec a k) as [->|N].
+  - intros H. inversion H. left. reflexivity.
+  - intros H. right. apply filter_In. split; [apply IH; exact H|]. simpl.
+    destruct (String.eqb_spec k a); [congruence|reflexivity].
+Qed.
